@@ -67,7 +67,8 @@ theorem wire_frame (k : Core) (fnode xnode : Nat) (ci : Option Nat) :
       (intsOf ((k.from xnode i).from fnode xnode).ints xnode) = k1 at h1 ⊢
     have h2 := foldl_from_frame (fun j => some j != some i) (fun j => j) (fun _ => xnode) (intsOf k1.ints fnode) k1
     generalize List.foldl (fun k j => if (some j != some i) = true then k.from j xnode else k) k1 (intsOf k1.ints fnode) = k2 at h2 ⊢
-    have h3 := foldl_from_frame (fun fin => xnode != fin) (fun _ => i) (fun fin => fin) (objectsOf k2.frm fnode).eraseDups k2
+    have h3 := foldl_from_frame (fun fin => xnode != fin || (objectsOf (k.from xnode i).frm fnode).contains xnode)
+      (fun _ => i) (fun fin => fin) (objectsOf k2.frm fnode).eraseDups k2
     have h1 : k1.nextB = k.nextB ∧ k1.src = k.src ∧ k1.shared = k.shared ∧ k1.ints = k.ints := h1
     refine ⟨?_, ?_, ?_, ?_⟩
     · rw [h3.1, h2.1, h1.1]
